@@ -60,14 +60,36 @@ static int add_integer(yaml_document_t *document, int value)
  */
 static int add_double(yaml_document_t *document, double value, int precision)
 {
-    char buf[3 * sizeof(double) + 10];
+    const bool hex = precision == VNACAL_MAX_PRECISION;
+    int length;
+    char *buf;
     int tag;
 
+    /*
+     * The length of the text grows with the precision, so size the
+     * buffer from the formatted length.
+     */
     assert(precision >= 1);
-    (void)sprintf(buf, "%.*e", precision - 1, value);
-    if ((tag = yaml_document_add_scalar(document, NULL,
-		    (yaml_char_t *)buf, strlen(buf),
-		    YAML_ANY_SCALAR_STYLE)) == 0) {
+    if (hex) {
+	length = snprintf(NULL, 0, "%a", value);
+    } else {
+	length = snprintf(NULL, 0, "%.*e", precision - 1, value);
+    }
+    if (length < 0) {
+	return -1;
+    }
+    if ((buf = malloc(length + 1)) == NULL) {
+	return -1;
+    }
+    if (hex) {
+	(void)snprintf(buf, length + 1, "%a", value);
+    } else {
+	(void)snprintf(buf, length + 1, "%.*e", precision - 1, value);
+    }
+    tag = yaml_document_add_scalar(document, NULL,
+	    (yaml_char_t *)buf, strlen(buf), YAML_ANY_SCALAR_STYLE);
+    free((void *)buf);
+    if (tag == 0) {
 	return -1;
     }
     return tag;
@@ -82,22 +104,42 @@ static int add_double(yaml_document_t *document, double value, int precision)
 static int add_complex(yaml_document_t *document, double complex value,
 	int precision)
 {
+    const bool hex = precision == VNACAL_MAX_PRECISION;
     double real = creal(value);
     double imag = cimag(value);
-    char buf[3 * sizeof(double complex) + 20];
+    int length;
+    char *buf;
     int tag;
 
+    /*
+     * The length of the text grows with the precision, so size the
+     * buffer from the formatted length.
+     */
     assert(precision >= 1);
-    if (precision == VNACAL_MAX_PRECISION) {
-	(void)sprintf(buf, "%+a %+aj", real, imag);
+    if (hex) {
+	length = snprintf(NULL, 0, "%+a %+aj", real, imag);
     } else {
-	(void)sprintf(buf, "%+.*e %+.*ej",
+	length = snprintf(NULL, 0, "%+.*e %+.*ej",
 		precision - 1, real,
 		precision - 1, imag);
     }
-    if ((tag = yaml_document_add_scalar(document, NULL,
-		    (yaml_char_t *)buf, strlen(buf),
-		    YAML_ANY_SCALAR_STYLE)) == 0) {
+    if (length < 0) {
+	return -1;
+    }
+    if ((buf = malloc(length + 1)) == NULL) {
+	return -1;
+    }
+    if (hex) {
+	(void)snprintf(buf, length + 1, "%+a %+aj", real, imag);
+    } else {
+	(void)snprintf(buf, length + 1, "%+.*e %+.*ej",
+		precision - 1, real,
+		precision - 1, imag);
+    }
+    tag = yaml_document_add_scalar(document, NULL,
+	    (yaml_char_t *)buf, strlen(buf), YAML_ANY_SCALAR_STYLE);
+    free((void *)buf);
+    if (tag == 0) {
 	return -1;
     }
     return tag;
